@@ -295,8 +295,10 @@ def _call_subflow(new_state: State, flow_state: FlowState) -> Optional[FlowState
     new_state.flow_states.append(subflow_state)
 
     # Check if we have a next step from the subflow
+    # (unless the subflow itself was interrupted by calling another subflow)
     subflow_config = new_state.flow_configs[subflow_state.flow_id]
-    _record_next_step(new_state, subflow_state, subflow_config)
+    if subflow_state.status == FlowStatus.ACTIVE:
+        _record_next_step(new_state, subflow_state, subflow_config)
 
     return subflow_state
 
